@@ -3,4 +3,6 @@ int g_thrown; typedef int opcodetype; size_t g_i, g_cur;
 static inline void ByteVec_push(ByteVec* v, unsigned char b) { v->data[v->size] = b; v->size = v->size + 1; }
 #define LOOP_CASTTOBOOL
 #define GHOST_CAST_STEP(i) ((void)0)
+#define C12_PASS_CONSTS
+#define C12_PASS_FUNCS
 #include "slices.h"
